@@ -21,3 +21,30 @@ Definition c09_py_int := py_int.
 Definition c09_path_tree := path_tree.
 Definition c09_sec1_point (p a b : Z) := sec1_point p a b.
 Definition c09_cli_hd (p a b n : Z) (G : point) := cli_hd p a b n G.
+
+(* ---- cross-function sequences (writer -> reader): the model is pure, so a sequence is the composition ---- *)
+Definition c09_ser_deser (p a b n : Z) (sha : bytes -> bytes) (key : xk) (cc : bytes) (depth : bz) (fp : bytes)
+           (child : bz) (testnet : bool) :=
+  bind (serialized_extended_key sha key cc depth fp child testnet) (fun s =>
+  bind (deserialized_extended_key p a b n sha s) (fun f => Ok (s, f))).
+Definition c09_ser_get_xpub (p a b n : Z) (G : point) (sha : bytes -> bytes) (key : xk) (cc : bytes) (depth : bz)
+           (fp : bytes) (child : bz) (testnet : bool) :=
+  bind (serialized_extended_key sha key cc depth fp child testnet) (fun s =>
+  bind (get_xpub p a b n G sha s) (fun y => Ok (s, y))).
+Definition c09_ser_derive (p a b n : Z) (G : point) (hm : bytes -> bytes -> bytes) (sha rip : bytes -> bytes)
+           (key : xk) (cc : bytes) (depth : bz) (fp : bytes) (child : bz) (testnet : bool) (path : bytes) :=
+  bind (serialized_extended_key sha key cc depth fp child testnet) (fun s =>
+  bind (derive_from_path p a b n G hm sha rip path s) (fun y => Ok (s, y))).
+(* deserialise -> serialise the returned fields -> deserialise again *)
+Definition c09_deser_ser_deser (p a b n : Z) (sha : bytes -> bytes) (x : bytes) :=
+  bind (deserialized_extended_key p a b n sha x) (fun f =>
+  let '(v, d, fp, ch, cc, k) := f in
+  bind (serialized_extended_key sha k cc (AsBytes d) fp (AsBytes ch) (is_testnet_version v)) (fun s =>
+  bind (deserialized_extended_key p a b n sha s) (fun f2 => Ok (s, f2)))).
+(* to_master_key -> root_serialized_extended_key -> derive_from_path -> get_xpub *)
+Definition c09_master_chain (p a b n : Z) (G : point) (hm : bytes -> bytes -> bytes) (sha rip : bytes -> bytes)
+           (seed : bytes) (testnet : bool) (path : bytes) :=
+  bind (to_master_key hm seed) (fun kc =>
+  bind (root_serialized_extended_key sha (KPriv (fst kc)) (snd kc) testnet) (fun s =>
+  bind (derive_from_path p a b n G hm sha rip path s) (fun y =>
+  bind (get_xpub p a b n G sha y) (fun z => Ok (s, y, z))))).
